@@ -388,23 +388,24 @@ class Interp:
             self.next()
             whole = self.expect("NAME")[1]
             self.expect("RBRACE")
+        elif [self.peek(k)[0] for k in range(5)] == ["TAB", "LBRACE", "NAME", "RBRACE", "NEWLINE"] and self.peek(5)[0] != "TAB":
+            # a body that consists of one bare {w} denotes a whole-array parameter (needs a declared shape)
+            self.next()
+            self.next()
+            whole = self.expect("NAME")[1]
+            self.expect("RBRACE")
+            self.expect("NEWLINE")
         else:
-            bare = []
             while self.peek()[0] == "TAB":
                 self.next()
                 row = []
                 while True:
                     sl = self.collect_expr(("COMMA",))
-                    bare.append(sl[1][1] if [t[0] for t in sl] == ["LBRACE", "NAME", "RBRACE"] else None)
                     row.append(self.eval_expr(sl))
                     if not self.accept("COMMA"):
                         break
                 self.expect("NEWLINE")
                 rows.append(row)
-            if len(bare) == 1 and bare[0] is not None:
-                # a body that consists of one bare {w} denotes a whole-array parameter (needs a declared shape)
-                whole = bare[0]
-                self.prog.parameters.discard(whole)
         if whole is not None:
             if shape is None or len(shape) != 2:
                 raise Reject("shape", name)
